@@ -1,0 +1,17 @@
+//go:build verif
+
+package pstoremgr
+
+// Contracts for the govc verifier (/verif). Comment-only.
+
+// assumed: a multiaddress parser returns either an address or an error, never both nil/non-nil
+//@ extern ma.NewMultiaddr(s)
+//@   ensures (err == nil) <==> (res != nil)
+
+// "unparsable lines are skipped rather than fatal": every returned address is a parsed one
+//@ func (pm *Manager) LoadPeerstore
+//@   property C14
+//@   ensures [no-nil-addresses] forall i int :: 0 <= i && i < len(addrs) ==> addrs[i] != nil
+//@   loop 1 (for scanner.Scan())
+//@     invariant forall i int :: 0 <= i && i < len(addrs) ==> addrs[i] != nil
+//@   modifies nothing
